@@ -8,6 +8,9 @@ SPECIES = ["A", "B", "C"]
 def replay(spec):
     """Runs under /venv/bin/python with the real compiled bioscrape (built from the current tree)."""
     import numpy as np
+    if spec.get("kind") == "safe_block":
+        from . import C06
+        return C06.replay(spec)
     from bioscrape.types import Model
     from bioscrape.simulator import ModelCSimInterface, SafeModelCSimInterface
     vals = unfrac(spec["values"])
